@@ -772,7 +772,7 @@ func c17RandFault(r *Rng, slot int) int {
 
 func genC17(tier string, seed uint64, n int, e *Emitter) {
 	if n == 0 {
-		n = 800
+		n = 600
 		if tier == "thorough" {
 			n = 20000
 		}
@@ -801,7 +801,9 @@ func genC17(tier string, seed uint64, n int, e *Emitter) {
 	for _, q := range classes {
 		for nx := 1; nx <= 2; nx++ {
 			for _, collide := range []bool{false, true} {
-				if collide && nx < 2 {
+				// equal names only matter for Result.Extensions and the finish-function tables:
+				// enumerated on the small classes, sampled on the trees
+				if collide && (nx < 2 || q.calls > 1) {
 					continue
 				}
 				for who := 0; who < nx; who++ {
